@@ -516,7 +516,7 @@ func randomInit(w *world, r *rand.Rand, scheme string) cmd {
 }
 
 func main() {
-	mode := flag.String("mode", "world", "world|replay|record")
+	mode := flag.String("mode", "world", "world|replay|record|heal")
 	target := flag.Int("target", 0, "fixed target index, or -k for the k-th random target of the seed")
 	scheme := flag.String("scheme", "path", "hash|path")
 	worldOut := flag.String("world", "world.json", "world file (TLC constants)")
@@ -552,6 +552,8 @@ func main() {
 		runReplay(w, *scheme, *in, *trace, sum)
 	case "record":
 		runRecord(w, *scheme, *trace, seed, *n, sum)
+	case "heal":
+		runHeal(w, *scheme, *trace, seed, *n, sum)
 	default:
 		tl.Fatal("bad mode")
 	}
